@@ -832,24 +832,14 @@ func pickTTL(r *vlib.R) int {
 func genL3Case(r *vlib.R, n int, emit func(string)) int {
 	cnt := 0
 	e := func(s string) { emit(s); cnt++ }
+	kind := n % 10
 	depth := 2 + r.Intn(2)
 	sec := r.Chance(3, 5)
-	var ns, ds []string
+	nsT := make([]int, depth)
+	dsT := make([]int, depth)
 	sg := ""
 	for k := 0; k < depth; k++ {
-		a, b := pickTTL(r), pickTTL(r)
-		switch r.Intn(5) {
-		case 0: // DS shorter than NS
-			if b >= a {
-				a, b = b+1, a
-			}
-		case 1: // grandchild lease longer than the child's
-			if k > 0 {
-				a, b = 3600, 3600
-			}
-		}
-		ns = append(ns, fmt.Sprint(a))
-		ds = append(ds, fmt.Sprint(b))
+		nsT[k], dsT[k] = pickTTL(r), pickTTL(r)
 		if r.Chance(4, 5) {
 			sg += "1"
 		} else {
@@ -857,19 +847,60 @@ func genL3Case(r *vlib.R, n int, emit func(string)) int {
 		}
 	}
 	attl := vlib.Pick(r, []int{1, 5, 60, 300, 86400, 86400})
+	neg := vlib.Pick(r, []int{1, 60, 3600, 86400})
 	pf := vlib.Pick(r, []int{0, 0, 10, 50, 90})
 	qmin := vlib.Pick(r, []int{0, 0, 5})
 	oob := 0
-	if r.Chance(1, 5) {
+	vic := 1 + r.Intn(depth) // which level the parent withdraws / re-points
+	quiet := false           // no queries between the parent's action and the lease end
+	switch kind {
+	case 0: // a 1–2 s lease against the 5 s cache floor
+		nsT[vic-1] = 1 + r.Intn(2)
+		attl, neg, quiet = 1, 1, true
+	case 1: // DS TTL shorter than NS TTL on a validated chain
+		sec, sg = true, "111"[:depth]
+		nsT[vic-1], dsT[vic-1] = vlib.Pick(r, []int{60, 300, 3600}), vlib.Pick(r, []int{2, 5, 10})
+	case 2: // the grandchild's own lease is longer than the child's
+		depth = 3
+		for len(nsT) < 3 {
+			nsT, dsT, sg = append(nsT, 0), append(dsT, 0), sg+"1"
+		}
+		vic = 2
+		nsT[1], dsT[1] = vlib.Pick(r, []int{3, 5, 10}), 3600
+		nsT[2], dsT[2] = 3600, 3600
+		if nsT[0] < 30 {
+			nsT[0] = 300
+		}
+		if dsT[0] < 30 {
+			dsT[0] = 300
+		}
+	case 3: // long-TTL answers kept hot with an aggressive prefetch threshold
+		attl, pf = 86400, 90
+		nsT[vic-1] = vlib.Pick(r, []int{5, 10, 30})
+	case 4: // name servers in a sibling zone (no glue: provisional entries, address lookups)
 		oob = 1
+		if depth == 2 && r.Chance(1, 2) {
+			vic = 2
+		}
+	case 5: // strictly sequential pipeline: the exact ancestor comparison applies
+		pf = 0
+	case 6: // the 12 h ceiling decides
+		nsT[vic-1], dsT[vic-1] = vlib.Pick(r, []int{43199, 43200}), 43200
+		attl, neg = 86400, 86400
 	}
 	secI := 0
 	if sec {
 		secI = 1
 	}
+	join := func(xs []int) string {
+		var p []string
+		for _, x := range xs {
+			p = append(p, fmt.Sprint(x))
+		}
+		return strings.Join(p, ",")
+	}
 	e(fmt.Sprintf("l3 new d=%d sec=%d ns=%s ds=%s sg=%s attl=%d neg=%d pf=%d qmin=%d oob=%d",
-		depth, secI, strings.Join(ns, ","), strings.Join(ds, ","), sg, attl, vlib.Pick(r, []int{1, 60, 3600, 86400}), pf, qmin, oob))
-	vic := 1 + r.Intn(depth) // which level the parent withdraws / re-points
+		depth, secI, join(nsT), join(dsT), sg, attl, neg, pf, qmin, oob))
 	V := chainNames[vic-1]
 	deepest := chainNames[depth-1]
 	cdMode := 2 // 0 never, 1 always, 2 sometimes
@@ -898,18 +929,6 @@ func genL3Case(r *vlib.R, n int, emit func(string)) int {
 			e("l3 q nx." + deepest + " A" + fl())
 		}
 	}
-	// warm up: learn the whole chain and data at every level
-	e("l3 q www." + deepest + " A" + fl())
-	probes()
-	if r.Chance(1, 2) {
-		e("l3 behave " + V + " " + vlib.Pick(r, []string{"nsauth", "nschange"}))
-	}
-	if r.Chance(2, 3) {
-		e("l3 q sr." + V + " A" + fl())
-		e("l3 q up." + V + " A" + fl())
-		e("l3 q " + V + " NS" + fl())
-		e("l3 q www." + V + " A" + fl())
-	}
 	// keep the names hot (prefetch) while the virtual clock advances in small steps
 	hot := func(k int) {
 		for i := 0; i < k; i++ {
@@ -923,22 +942,41 @@ func genL3Case(r *vlib.R, n int, emit func(string)) int {
 			}
 		}
 	}
-	hot(r.Intn(4))
+	// warm up: learn the whole chain and data at every level
+	if kind == 0 {
+		cdMode = 0
+	}
+	e("l3 q www." + deepest + " A" + fl())
+	probes()
+	if !quiet {
+		if r.Chance(1, 2) {
+			e("l3 behave " + V + " " + vlib.Pick(r, []string{"nsauth", "nschange"}))
+		}
+		if r.Chance(2, 3) {
+			e("l3 q sr." + V + " A" + fl())
+			e("l3 q up." + V + " A" + fl())
+			e("l3 q " + V + " NS" + fl())
+			e("l3 q www." + V + " A" + fl())
+		}
+		hot(r.Intn(4))
+	}
 	// the parent acts
 	if r.Chance(1, 2) {
 		e("l3 withdraw " + V)
 	} else {
 		e(fmt.Sprintf("l3 repoint %s %s %d %d", V, vlib.Pick(r, []string{"same", "new"}), pickTTL(r), pickTTL(r)))
 	}
-	hot(r.Intn(3))
-	if r.Chance(1, 2) {
-		e("l3 q " + V + " NS" + fl())
-		e("l3 q sr." + V + " A" + fl())
-	}
-	// just before the lease end (no judgement possible, the old data may legitimately still be served)
-	if r.Chance(1, 2) {
-		e("l3 end " + V + " -1000")
-		e("l3 q www." + V + " A" + fl())
+	if !quiet {
+		hot(r.Intn(3))
+		if r.Chance(1, 2) {
+			e("l3 q " + V + " NS" + fl())
+			e("l3 q sr." + V + " A" + fl())
+		}
+		// just before the lease end (no judgement possible: the old data may legitimately still be served)
+		if r.Chance(1, 2) {
+			e("l3 end " + V + " -1000")
+			e("l3 q www." + V + " A" + fl())
+		}
 	}
 	// just after the lease end (+ slack): the old delegation and everything learned through it is gone
 	cdMode = 0
